@@ -10,7 +10,8 @@
    both variants of the converter-error branch.  The driver does a counting run of the real
    template and then runs every k in 1..n+1. *)
 EXTENDS Writer, Json, SequencesExt
-CONSTANTS MaxLen, MaxLenR, MaxLenM, MaxDepth
+CONSTANTS MaxLen, MaxLenR, MaxLenM, MaxDepth,
+          Export      \* TRUE: write cases.ndjson (the catalogue with the model's outcome sets)
 
 \* well-nested programs are generated prefix by prefix, each carried with its number of open calls
 NewD(d, o) == IF o \in Calls THEN d + 1 ELSE IF o = "R" THEN d - 1 ELSE d
@@ -93,12 +94,15 @@ Outcomes(shape, cf) ==
      f \in {Final(S0(shape, k, st, cf)) : k \in 1..(NWrites(shape) + 1), st \in Stickiness(shape)}}
 CatSeq == SetToSeq(Catalogue)
 CxSeq == SetToSeq(Contexts \X Values)
+OutsF == [i \in 1..Len(CatSeq) |-> IF CatSeq[i].m THEN SetToSeq(Outcomes(CatSeq[i].shape, TRUE)) ELSE <<>>]
 Cases == [i \in 1..Len(CatSeq) |->
             [id |-> i, name |-> CatSeq[i].name, kind |-> CatSeq[i].kind, modelled |-> CatSeq[i].m,
-             outsF |-> IF CatSeq[i].m THEN SetToSeq(Outcomes(CatSeq[i].shape, TRUE)) ELSE <<>>,
-             outsO |-> IF CatSeq[i].m THEN SetToSeq(Outcomes(CatSeq[i].shape, FALSE)) ELSE <<>>]]
+             outsF |-> IF CatSeq[i].m THEN OutsF[i] ELSE <<>>,
+             outsO |-> IF ~CatSeq[i].m THEN <<>>
+                       ELSE IF \E j \in DOMAIN CatSeq[i].shape : CatSeq[i].shape[j] = "CC"
+                            THEN SetToSeq(Outcomes(CatSeq[i].shape, FALSE)) ELSE OutsF[i]]]   \* (the variants differ only at "CC")
          \o [i \in 1..Len(CxSeq) |->
             [id |-> 1000 + i, name |-> "cx/" \o CxSeq[i][1] \o "/" \o CxSeq[i][2], kind |-> "cx", modelled |-> FALSE,
              outsF |-> <<>>, outsO |-> <<>>]]
-ASSUME ndJsonSerialize("cases.ndjson", Cases)
+ASSUME Export => ndJsonSerialize("cases.ndjson", Cases)
 =============================================================================
